@@ -292,6 +292,28 @@ def r05_5(prog, out):
                                     if (s_ids.fields & fl) and (s_secs.fields & fl) and len(fl) >= 2:
                                         guarded = True
                     child, x = pid, pi.body
+            if not guarded and not derived:
+                # the comparison may live in a helper called before the parser (check_lists(&request)?)
+                for cbb, ct in bi.calls(lambda c: (c.local or c.res_local) and not c.path.endswith("Future::poll")):
+                    if not bi.cfg.dominates(cbb, bb) or prog.qual(b, ct.callee.target) in parser:
+                        continue
+                    for hid in prog.cone(prog.qual(b, ct.callee.target), follow=("call", "closure")):
+                        hb = prog.facts.body(hid)
+                        if hb is None or hb.coroutine:
+                            continue
+                        hi2 = prog.info(hid)
+                        for blk in hb.blocks:
+                            if blk.cleanup:
+                                continue
+                            for st in blk.stmts:
+                                if st.k == "assign" and st.rv.k == "bin" and st.rv.j["op"] in ("Ne", "Eq"):
+                                    fl = set()
+                                    for op in st.rv.ops:
+                                        o = hi2.trace(op)
+                                        if o.kind == "call" and hi2.call_at(o.data).callee.path.endswith("::len"):
+                                            fl |= sl.of(hid, hi2.call_at(o.data).args[0]).fields
+                                    if (s_ids.fields & fl) and (s_secs.fields & fl) and len(fl) >= 2:
+                                        guarded = True
             if derived:
                 out.holds(key, bi.loc(bb), "the seconds list is built with one element per ack id")
             elif guarded:
